@@ -118,24 +118,22 @@ def names_types(ir):
 def check_convert(r, d):
     orig = d["text"]
     src_style = d["style"]
-    if p48(d):
-        return  # counted in check_split
+    text_ends_in_section = p48(d)  # (P48, counted in check_split) relaxes the parameter / re-parse clauses only
     rest_footer = src_style == "rest" and d["footer"] and is_open("P20")
-    if src_style == "rest" and d["rtyp"] and is_open("P50"):
-        r.covered("P50")
-        return
-    if src_style == "numpydoc" and d["footer"] and is_open("P49"):
-        r.covered("P49")  # numpydoc has no end-of-section notion either: footer lines are parsed as parameters
-        return
-    if src_style == "numpydoc" and d["indent"] > 0 and is_open("P25"):
-        r.covered("P25")  # indented numpydoc is not recognised at all
-        return
+    rest_rtyp = src_style == "rest" and d["rtyp"] and is_open("P50")  # relaxes the parameter / re-parse clauses only
+    # numpydoc has no end-of-section notion either (P49): footer lines are parsed as parameters.  That relaxes the
+    # clauses about parameters / absorption - NOT the header clause: the header prose must survive every conversion
+    numpy_footer = src_style == "numpydoc" and d["footer"] and is_open("P49")
+    numpy_indented = src_style == "numpydoc" and d["indent"] > 0 and is_open("P25")  # indented numpydoc is not recognised at all
+    src_known = "P48" if text_ends_in_section else "P49" if numpy_footer else "P50" if rest_rtyp else "P25" if numpy_indented else None
     try:
         with core.quiet():
             ir0 = cdd.docstring.parse.docstring(orig)
     except Exception as e:
         if rest_footer:
             r.covered("P20")
+        elif src_known:
+            r.covered(src_known)
         else:
             r.fail("parse-raises", core.exc_bucket(e))
         return
@@ -143,11 +141,16 @@ def check_convert(r, d):
     if ab:
         if rest_footer and all("fw" in x for x in ab):
             r.covered("P20")
+        elif src_known:
+            r.covered(src_known)
         else:
             r.fail("absorbed", "parse(original): %s" % ab[:3])
     want_names = [p["name"].lstrip("*") for p in d["params"]]
     if [n for n, _ in names_types(ir0)] != want_names:
-        r.fail("param-names", "parse(original) gives %s, text documents %s" % ([n for n, _ in names_types(ir0)], want_names))
+        if src_known:
+            r.covered(src_known)
+        else:
+            r.fail("param-names", "parse(original) gives %s, text documents %s" % ([n for n, _ in names_types(ir0)], want_names))
     # pipeline B: the docstring inside a def at the generated indentation, through function.parse (carries original_doc_str)
     # plain = no original_doc_str: the header comes from ir["doc"]; also emitted at indent levels 1 and 2
     variants = [("direct", None), ("plain", 0), ("plain", 1), ("plain", 2)]
@@ -178,11 +181,13 @@ def check_convert(r, d):
             except Exception as e:
                 if rest_footer:
                     r.covered("P20")  # footer already absorbed into the return/last type of the ReST original
+                elif src_known:
+                    r.covered(src_known)
                 else:
                     r.fail("convert-raises", "%s %s" % (tag, core.exc_bucket(e)))
                 continue
             to_rest_footer = rest_footer or (target == "rest" and d["footer"] and is_open("P20"))
-            to_numpy_footer = d["footer"] and is_open("P49") and (target == "numpydoc" or (d["rtyp"] and (target == "google" or src_style == "google")))
+            to_numpy_footer = numpy_footer or (d["footer"] and is_open("P49") and (target == "numpydoc" or (d["rtyp"] and (target == "google" or src_style == "google"))))
             # clauses that need the *converted* text to be re-parsed are relaxed where that re-parse is known broken:
             #  P25 converted to numpydoc at indent > 0;  P51 numpydoc original whose misplaced "footer" (tail of the last
             #  description) is appended again after the converted section
@@ -190,7 +195,7 @@ def check_convert(r, d):
                 p42 = "P42"  # empty header at indent > 0: a blank line is inserted after `Args:` / `Parameters`
             else:
                 p42 = None
-            reparse_known = p42 or ("P25" if (target == "numpydoc" and (how == "function" or d["indent"] > 0 or (how == "plain" and ind)) and is_open("P25")) else ("P51" if (src_style == "numpydoc" and is_open("P51")) else None))
+            reparse_known = p42 or (src_known if src_known in ("P48", "P50", "P25") else None) or ("P25" if (target == "numpydoc" and (how == "function" or d["indent"] > 0 or (how == "plain" and ind)) and is_open("P25")) else ("P51" if (src_style == "numpydoc" and is_open("P51")) else None))
             out_lines = [l.strip() for l in out.splitlines()]
             pos = 0
             for hl in d["header_lines"]:
